@@ -54,6 +54,10 @@ type line struct {
 }
 
 type caseT struct {
+	Where string `json:"where"`
+	D     any    `json:"d"`
+	Sel   string `json:"sel"`
+	Op    M      `json:"op"`
 	What  string `json:"what"`
 	Fam   string `json:"fam"`
 	G     any    `json:"g"`
@@ -256,6 +260,98 @@ func runJ2G(vm *otto.Otto, c *caseT, src string, consts map[string]float64) (M, 
 	return obs, nil
 }
 
+// runMut: a length-changing script step on a container nested in a *Doc; afterwards the script's view of x,
+// the Go variable and what Export returns are projected.
+func runMut(vm *otto.Otto, c *caseT) (M, error) {
+	d, err := bridge.BuildDoc(c.D)
+	if err != nil {
+		return nil, err
+	}
+	X, err := bridge.PlaceDoc(vm, c.Where, d)
+	if err != nil {
+		return nil, err
+	}
+	P, err := bridge.DocPath(X, c.Sel)
+	if err != nil {
+		return nil, err
+	}
+	var parts []json.RawMessage
+	str := func(t string) { b, _ := json.Marshal(t); parts = append(parts, b) }
+	val := func() {
+		if js, ok := c.Op["js"].([]any); ok {
+			for _, p := range js {
+				b, _ := json.Marshal(p)
+				parts = append(parts, b)
+			}
+		}
+	}
+	switch c.Op["op"] {
+	case "jspush":
+		str("RET = " + P + ".push(")
+		val()
+		str(")")
+	case "jsunshift":
+		str("RET = " + P + ".unshift(")
+		val()
+		str(")")
+	case "jswrite":
+		str(fmt.Sprintf("RET = (%s[%d] = ", P, int(c.Op["i"].(float64))))
+		val()
+		str(")")
+	case "jspop":
+		str("RET = " + P + ".pop()")
+	case "jsshift":
+		str("RET = " + P + ".shift()")
+	case "jssplice":
+		str("RET = " + P + ".splice(0, 1)")
+	case "jssetlen":
+		str(fmt.Sprintf("RET = (%s.length = %d)", P, int(c.Op["n"].(float64))))
+	default:
+		return nil, fmt.Errorf("unknown step %v", c.Op["op"])
+	}
+	body, consts, err := gen.Render(parts)
+	if err != nil {
+		return nil, err
+	}
+	for k, f := range consts {
+		if err := vm.Set(k, f); err != nil {
+			return nil, err
+		}
+	}
+	stmt := "var THR = 'none', RET; try { " + body + "; THR = ''; } catch (e) { THR = (e instanceof Error) ? e.name : 'value'; }"
+	thr := ""
+	if _, err := vm.Run(stmt); err != nil {
+		thr = "uncaught:" + bridge.ErrClass(err)
+	} else if t, e := vm.Get("THR"); e == nil {
+		thr = t.String()
+	}
+	obs := M{"thr": thr}
+	var ret any = M{"t": "undef"}
+	if thr == "" {
+		r, e := vm.Run("JSON.stringify(OBS(RET))")
+		if e != nil || json.Unmarshal([]byte(r.String()), &ret) != nil {
+			ret = M{"unobservable": fmt.Sprint(e)}
+		}
+	}
+	obs["ret"] = ret
+	var view any
+	r, e := vm.Run("JSON.stringify(OBS(x))")
+	if e != nil || json.Unmarshal([]byte(r.String()), &view) != nil {
+		view = M{"unobservable": fmt.Sprint(e)}
+	}
+	obs["js"] = view
+	obs["go"] = bridge.DocForm(d)
+	xv, err := vm.Get("x")
+	if err != nil {
+		return nil, err
+	}
+	ex, _ := xv.Export()
+	ed := bridge.ExportedDoc(c.Where, ex)
+	obs["export"] = bridge.DocForm(ed)
+	obs["same"] = ed == d
+	return obs, nil
+}
+
 // runCallErr: calls that must fail: the callee throws, the value is not callable, the name does not resolve.
 func runCallErr(vm *otto.Otto, c *caseT) (M, error) {
 	var err error
@@ -399,6 +495,8 @@ func (b *vmBox) execute(l *line, fresh bool) (obs any, src string, err error) {
 			m, err = runCall(b.vm, &c)
 		case "callerr":
 			m, err = runCallErr(b.vm, &c)
+		case "mut":
+			m, err = runMut(b.vm, &c)
 		default:
 			err = fmt.Errorf("unknown family %q", c.Fam)
 		}
